@@ -41,6 +41,9 @@ CHECKS = {
  "C11": ("exploration", "property-based testing (proptest): byte strings of every length 0..=200 in both endiannesses, integers around the modulus offered to every checked parser, element pairs through every serialisation / conversion / ordering / hashing path, flag round trips; integer oracle in BigUint",
          "Generated-input search on 3 fields x 2 backends (1.5M cases quick); class histogram per (backend, field, kind) with required classes.",
          "Display(0) may be empty; FromStr compared only on canonical numerals; stream deserialisers may use any error kind.", "5/C11"),
+ "C12": ("exploration", "differential property-based testing (proptest): one generated input (field operation chains, byte strings, near-miss encodings, Elligator inputs, group programs over all shared operator forms) fed to both feature configurations linked into one process; byte-identical observables required after every step",
+         "Generated-input search; the two configurations are compiled from the same tree (default+r1cs and --no-default-features) and compared on verdicts, error variants, encodings, field bytes, identity tests and equality.",
+         "Says which backend is wrong only together with C01-C11; internal coordinates are not compared.", "5/C12"),
 }
 PENDING = {}
 
